@@ -16,12 +16,18 @@ import (
 //   00 (3) < 01 (260) => skip,
 //   01 (270) >= 01 (260) => 09 > 04 => found!
 
+// Int encodes all 64 bits of the value: an int is 64 bits wide on most
+// platforms and truncating it to 32 bits maps different values to one key.
 func Int(n int) Key {
-	return Int32(int32(n))
+	return Int64(int64(n))
 }
 
 func IntString(s string) (Key, error) {
-	return Int32String(s)
+	n, err := strconv.ParseInt(s, 10, strconv.IntSize)
+	if err != nil {
+		return Key{}, err
+	}
+	return Int(int(n)), nil
 }
 
 func Int64(n int64) Key {
